@@ -100,8 +100,8 @@ CLAIMED["C19"] = ("Unbounded proof of the byte-level encoding: op-word encode/de
   "by precondition.", "13/C19")
 CLAIMED["C20"] = ("Unbounded proof of the safety half: Stats sums over the whole tree of stacks, statsSegmentsLOCKED reports CurDirtySegments == 0 only if top, mid and base hold no segment in any "
   "collection of the tree, isEmpty is true only for an empty tree, buildStackDirtyTop does not lose nested child stacks, merge keeps tombstones while something lies below.",
-  "Not covered: that an empty dirty tree implies the lower level holds every batch (S14: a batch that only deletes a child leaves no segment; S25: merger not woken for child-only "
-  "batches); progress. Fixed S20.", "13/C20")
+  "Not covered: that an empty dirty tree implies the lower level holds every batch (S14: a batch that only deletes a child leaves no segment); "
+  "progress. The merger is proved to sleep only when the top section's whole tree is empty (mergerWaitForWork). Fixed S20, S25.", "13/C20")
 
 NA_REASONS = {
  "C17": "data-race freedom in the Go memory model is a whole-program property over every access (incl. runtime, mmap-go, ghistogram); no contract within reach of a "
